@@ -222,6 +222,16 @@ package mq
 
 //@ func (*Connect).dump
 //@   requires w != nil
+//@   -- C18: the premise "the packets differ only in the credential bytes" means no other field shares memory with them
+//@   requires disjoint(p.protocolName, p.username) && disjoint(p.protocolName, p.password)      #C18
+//@   requires disjoint(p.clientID, p.username) && disjoint(p.clientID, p.password)              #C18
+//@   requires disjoint(p.authMethod, p.username) && disjoint(p.authMethod, p.password)          #C18
+//@   requires disjoint(p.authData, p.username) && disjoint(p.authData, p.password)              #C18
+//@   requires forall k in 0..len(p.UserProperties): disjoint(p.UserProperties[k][0], p.username) && disjoint(p.UserProperties[k][0], p.password) && disjoint(p.UserProperties[k][1], p.username) && disjoint(p.UserProperties[k][1], p.password)   #C18
+//@   requires p.will != nil ==> disjoint(p.will.topicName, p.username) && disjoint(p.will.topicName, p.password) && disjoint(p.will.responseTopic, p.username) && disjoint(p.will.responseTopic, p.password)   #C18
+//@   requires p.will != nil ==> disjoint(p.will.correlationData, p.username) && disjoint(p.will.correlationData, p.password) && disjoint(p.will.contentType, p.username) && disjoint(p.will.contentType, p.password)   #C18
+//@   requires p.will != nil ==> disjoint(p.will.payload, p.username) && disjoint(p.will.payload, p.password)   #C18
+//@   requires p.will != nil ==> (forall k in 0..len(p.will.UserProperties): disjoint(p.will.UserProperties[k][0], p.username) && disjoint(p.will.UserProperties[k][0], p.password) && disjoint(p.will.UserProperties[k][1], p.username) && disjoint(p.will.UserProperties[k][1], p.password))   #C18
 //@   requires specConnectOK(p.flags, p.will)
 //@   assigns $writes
 
@@ -870,6 +880,16 @@ package mq
 //@   assigns $alloc
 
 //@ func (*Connect).String
+//@   -- C18: the premise "the packets differ only in the credential bytes" means no other field shares memory with them
+//@   requires disjoint(p.protocolName, p.username) && disjoint(p.protocolName, p.password)      #C18
+//@   requires disjoint(p.clientID, p.username) && disjoint(p.clientID, p.password)              #C18
+//@   requires disjoint(p.authMethod, p.username) && disjoint(p.authMethod, p.password)          #C18
+//@   requires disjoint(p.authData, p.username) && disjoint(p.authData, p.password)              #C18
+//@   requires forall k in 0..len(p.UserProperties): disjoint(p.UserProperties[k][0], p.username) && disjoint(p.UserProperties[k][0], p.password) && disjoint(p.UserProperties[k][1], p.username) && disjoint(p.UserProperties[k][1], p.password)   #C18
+//@   requires p.will != nil ==> disjoint(p.will.topicName, p.username) && disjoint(p.will.topicName, p.password) && disjoint(p.will.responseTopic, p.username) && disjoint(p.will.responseTopic, p.password)   #C18
+//@   requires p.will != nil ==> disjoint(p.will.correlationData, p.username) && disjoint(p.will.correlationData, p.password) && disjoint(p.will.contentType, p.username) && disjoint(p.will.contentType, p.password)   #C18
+//@   requires p.will != nil ==> disjoint(p.will.payload, p.username) && disjoint(p.will.payload, p.password)   #C18
+//@   requires p.will != nil ==> (forall k in 0..len(p.will.UserProperties): disjoint(p.will.UserProperties[k][0], p.username) && disjoint(p.will.UserProperties[k][0], p.password) && disjoint(p.will.UserProperties[k][1], p.username) && disjoint(p.will.UserProperties[k][1], p.password))   #C18
 //@   assigns $alloc
 
 //@ func (*Undefined).String
